@@ -1,4 +1,5 @@
 import SSVerif.Proofs.FlatNet
+import SSVerif.Proofs.Beam
 /-! Every network `FlatNet.build` produces is well-formed and its labels are consistent with the FSG —
 for every model (grammar, dictionary, tables), not per run. Core Lean only. -/
 namespace SSVerif.FlatNet
@@ -264,5 +265,64 @@ theorem build_labelsOK (M : Model) (tmat : Nat → List Nat) (L : LNet) (insts :
     refine ⟨buildFrom_labelsOK M tmat l.toArray ?_, buildFrom_wf M tmat l.toArray⟩
     intro h hh
     exact allInsts_ok hl h (by simpa using hh)
+
+/-! ### the beam-annotated network is the same network -/
+
+open SSVerif.Beam in
+theorem flatMap_map_congr {α β γ : Type} (l : List α) (f : α → List β) (g : β → γ) (f' : α → List γ)
+    (h : ∀ a ∈ l, (f a).map g = f' a) : (l.flatMap f).map g = l.flatMap f' := by
+  rw [List.map_flatMap]
+  induction l with
+  | nil => rfl
+  | cons a as ih =>
+    simp only [List.flatMap_cons]
+    rw [h a List.mem_cons_self, ih (fun x hx => h x (List.mem_cons_of_mem _ hx))]
+
+open SSVerif.Beam in
+theorem buildB_toNet (M : Model) (tmat : Nat → List Nat) (insts : Array Inst) :
+    (buildB M tmat insts).toNet = (buildFrom M tmat insts).toNet := by
+  simp only [buildB, buildFrom, BNet.toNet, LNet.toNet, List.map_append, List.append_assoc]
+  refine congr (congr (congrArg Viterbi.Net.mk ?_) ?_) ?_
+  · congr 1
+    · apply flatMap_map_congr
+      intro a _
+      rw [List.map_map]
+      conv => rhs; rw [← List.map_id (hmmEdges (tmat a.1.tmat) a.2)]
+      apply List.map_congr_left
+      intro e _
+      simp [BEdge.triple, BEdge.cost]
+    · congr 1
+      · apply flatMap_map_congr
+        intro a _
+        split
+        · rfl
+        · apply flatMap_map_congr
+          intro a' _
+          split
+          · rw [List.map_map]; apply List.map_congr_left; intro e _; simp [BEdge.triple, BEdge.cost]
+          · rfl
+      · apply flatMap_map_congr
+        intro a _
+        split
+        · rfl
+        · apply flatMap_map_congr
+          intro a' _
+          split
+          · apply flatMap_map_congr
+            intro hop _
+            rw [List.map_map]; apply List.map_congr_left; intro e _; simp [BEdge.triple, BEdge.cost]
+          · rfl
+  · apply flatMap_map_congr
+    intro a _
+    split
+    · rw [List.map_map]; apply List.map_congr_left; intro e _; simp [BInit.pair]
+    · rfl
+  · apply flatMap_map_congr
+    intro a _
+    split
+    · apply flatMap_map_congr
+      intro hop _
+      rw [List.map_map]; apply List.map_congr_left; intro e _; simp [BExit.pair]
+    · rfl
 
 end SSVerif.FlatNet
